@@ -166,6 +166,20 @@ func init() {
 	for k, v := range more6 {
 		more[k] = append(more[k], v...)
 	}
+	// seventh, partial round (DESIGN 10.10)
+	more7 := map[string][]string{
+		"C02": {"an element kept under an input-chosen key does not replace an earlier one (A.keyed-once)", "unknown attributes are kept (X2.unknown)"},
+		"C04": {"A.keyed-once", "X2.unknown"},
+		"C09": {"a database never takes over the other database's slice (K10.share-db)", "where no PEM block is found the normaliser hands back exactly its input (K8.exact)"},
+		"C11": {"F16.stateless over every exported method of the stores", "every successful return of the exported writers lies behind the file write (F17.always-write)"},
+		"C12": {"F16.stateless over every exported method of the stores", "F17.always-write"},
+		"C13": {"a slice bound or index computed from bytes of an input slice is compared with the length it bounds (T13.bytes)", "a decoding loop does not walk the collection it is growing (T14.quadratic)"},
+		"C14": {"T13.bytes, T14.quadratic"},
+		"C16": {"with an optional element absent the parser still succeeds (X1.absent)", "A.keyed-once"},
+	}
+	for k, v := range more7 {
+		more[k] = append(more[k], v...)
+	}
 	for k, v := range more {
 		m := Metas[k]
 		m.Decided = append(m.Decided, v...)
